@@ -99,6 +99,13 @@ def run(ctx: Ctx, env):
         ok = ok and lexer_used is not None and lexer_used == lexer_used2 and parser_used == parser_used2
         # keys come from the alias map's keys, values from its values
         ok = ok and _inner_arg(k) is not None and _inner_arg(v) is not None and _inner_arg(k) != _inner_arg(v)
+        if ok:
+            role_k, role_v = _role(_inner_val(k)), _role(_inner_val(v))
+            if role_k is None or role_v is None:
+                raise AnalysisError(f"unrecognised alias-table construction: {k!r} -> {v!r}", rm.loc(ifn))
+            ctx.check(role_k == "key" and role_v == "value", "R5.table-direction", key,
+                      f"the table maps parse(<alias {role_k}>) to parse(<alias {role_v}>); it must map parsed alias keys to parsed alias values",
+                      rm.loc(ifn), "alias {'a': 'author'}, filter `a eq 1`")
         ctx.check(ok, "R5.table-built-by-parsing", key, f"table entry is {k!r} -> {v!r}", rm.loc(ifn))
         # supplied objects are used iff given
         for pname, used in (("lexer", lexer_used), ("parser", parser_used)):
@@ -253,6 +260,24 @@ def _parse_objects(v):
         return repr(lattr.args[0]), repr(pattr.args[0])
     except Exception:
         return None, None
+
+
+def _inner_val(v):
+    try:
+        return v.args[1][0].args[1][0]
+    except Exception:
+        return None
+
+
+def _role(x) -> Optional[str]:
+    """Is x the key or the value of an item of the alias mapping?"""
+    if isinstance(x, Sym) and x.op == "elem" and len(x.args) == 2 and "items" in repr(x.args[0]):
+        return {0: "key", 1: "value"}.get(x.args[1])
+    if isinstance(x, Sym) and x.op == "elemof" and "field_aliases" in repr(x) and "items" not in repr(x) and "values" not in repr(x):
+        return "key"
+    if isinstance(x, Sym) and x.op == "item" and "field_aliases" in repr(x.args[0]):
+        return "value"
+    return None
 
 
 def _inner_arg(v) -> Optional[str]:
